@@ -159,6 +159,7 @@ class Ctx(object):
         self.counting = True
         self.extra = {}
         self.exhaustive_cells = 0
+        self.grid_cases = 0        # cases of the check's deterministic grid(tier) evaluated in this run
         # per-case
         self._violations = []
         self._nontrivial = False
@@ -239,7 +240,7 @@ class Ctx(object):
                 "labels": dict(self.labels), "resid": self.resid,
                 "samples": self.samples, "later": self.later,
                 "known_hits": dict(self.known_hits), "extra": self.extra,
-                "exhaustive_cells": self.exhaustive_cells}
+                "exhaustive_cells": self.exhaustive_cells, "grid_cases": self.grid_cases}
 
     def merge(self, d):
         self.evaluations += d["evaluations"]
@@ -259,6 +260,7 @@ class Ctx(object):
         self.later.extend(d["later"][:3])
         self.known_hits.update(d["known_hits"])
         self.exhaustive_cells += d.get("exhaustive_cells", 0)
+        self.grid_cases += d.get("grid_cases", 0)
         for k, v in d.get("extra", {}).items():
             if isinstance(v, (int, float)) and isinstance(self.extra.get(k), (int, float)):
                 self.extra[k] += v
@@ -365,6 +367,7 @@ def write_evidence(mod, ctx, tier, seed, wall, nviol, info):
         "evaluations": int(ctx.evaluations + ctx.exhaustive_cells),
         "generated_cases": int(ctx.evaluations),
         "exhaustive_cells": int(ctx.exhaustive_cells),
+        "deterministic_grid_cases": int(ctx.grid_cases),
         "distinct_nontrivial": int(len(ctx.nontrivial)),
         "rule": mod.RULE,
         "samples": json.loads(canonical(ctx.samples + later)),
